@@ -502,11 +502,13 @@ unsigned int ProcessExecutor::check()
                         std::ostringstream oss;
                         oss << "Child process exited with " << exitstatus;
                         reportInternalChildErr(childname, oss.str());
+                        ++result;
                     }
                 } else if (WIFSIGNALED(stat)) {
                     std::ostringstream oss;
                     oss << "Child process crashed with signal " << WTERMSIG(stat);
                     reportInternalChildErr(childname, oss.str());
+                    ++result;
                 }
             }
         }
